@@ -1259,6 +1259,8 @@ fn wrap_nullable(inner: Value, null_order: Nullability) -> Value {
             }
             Value::Array(union)
         }
+        // `"null"` is nullable as it is; `["null", "null"]` is not a valid Avro union
+        other if is_avro_json_null(&other) => other,
         other => match null_order {
             Nullability::NullFirst => Value::Array(vec![null, other]),
             Nullability::NullSecond => Value::Array(vec![other, null]),
